@@ -89,8 +89,12 @@ func runC15(c *Ctx) {
 			if ef.Call.Aux == calleeName(crm) && len(ef.Call.Args) >= 2 && ef.Call.Args[0] == el && ef.Call.Args[1] == host && u.bdd.Implies(rc, u.ToBool(ef.Call)) {
 				okM = true
 			}
-			if ef.Call.Aux == calleeName(isWL) && len(ef.Call.Args) >= 3 && ef.Call.Args[wlRule] == el && ef.Call.Args[wlHost] == host && u.bdd.Implies(rc, u.bdd.Not(u.ToBool(ef.Call))) {
-				okW = true
+			if ef.Call.Aux == calleeName(isWL) && len(ef.Call.Args) >= 3 && ef.Call.Args[wlHost] == host && u.bdd.Implies(rc, u.bdd.Not(u.ToBool(ef.Call))) {
+				// the test is handed the rule, or the content it is looked up by
+				a := ef.Call.Args[wlRule]
+				if a == el || (a.Op == "field" && a.Aux == "Content" && a.Args[0] == el) {
+					okW = true
+				}
 			}
 		}
 		return
@@ -127,49 +131,110 @@ func runC15(c *Ctx) {
 		// (a) exact-key probe: loop-carried domain = hostname, then strings.Cut(domain, ".") tail, until empty; lookup in every iteration
 		okProbe := ""
 		foundProbe := false
-		for _, l := range findLoops {
+		for _, li := range loopInsts(g, s) {
+			l, act := li.L, li.Act
 			for _, in := range l.Header.Instrs {
 				ph, ok := in.(*ssa.Phi)
 				if !ok || typeStr(ph.Type()) != "string" {
 					continue
 				}
-				var init, next *E
-				for i, p := range l.Header.Preds {
-					if l.Blocks[p] {
-						next = s.Env[ph.Edges[i]]
-					} else {
-						init = s.Env[ph.Edges[i]]
+				var init *E
+				d := act.Env[ph]
+				// the value carried into the next iteration, with "the loop is left early" read as
+				// "the next value is empty" (for d != ""; ...; cut  ==  for { ...; if no dot {break}; d = d[dot+1:] })
+				cont := contCond(u, act, l)
+				body := u.bdd.And(act.RC[l.Header], cont)
+				// loops nested in the probe loop terminate: their control atoms are projected away
+				var innerCtl []int
+				for _, l2 := range loopsOf(act.Fn) {
+					if l2 != l && l.Blocks[l2.Header] {
+						innerCtl = append(innerCtl, u.bdd.Support(contCond(u, act, l2))...)
 					}
 				}
-				d := s.Env[ph]
-				if init != host || next == nil || d == nil {
+				rel := func(c0 Ref) Ref {
+					r := u.bdd.Restrict(c0, body)
+					for _, v := range innerCtl {
+						r = u.bdd.Exists(r, v)
+					}
+					return r
+				}
+				var effNext *E
+				okShape := true
+				for i, p := range l.Header.Preds {
+					if l.Blocks[p] {
+						v := act.Env[ph.Edges[i]]
+						if v == nil {
+							okShape = false
+							continue
+						}
+						ec := rel(act.RC[p])
+						if effNext == nil {
+							effNext = v
+						} else {
+							effNext = u.ITE(ec, v, effNext)
+						}
+					} else {
+						init = act.Env[ph.Edges[i]]
+					}
+				}
+				if init != host || effNext == nil || d == nil || !okShape {
 					continue
+				}
+				early := False
+				lookupsBefore := true
+				for _, ex := range l.Exits {
+					if ex[0] != l.Header {
+						early = u.bdd.Or(early, rel(edgeCondOf(u, act, ex[0], ex[1])))
+					}
+				}
+				if early != False {
+					effNext = u.ITE(early, u.Str(""), effNext)
 				}
 				foundProbe = true
 				// next == extract#1(strings.Cut(d, "."))
 				wantNext := u.LibCall("strings.Cut", nil, d, u.Str(".")).Args[1]
-				okNext, _ := semEqual(u, next, wantNext)
-				cont := contCond(u, s, l)
+				okNext, _ := semEqual(u, effNext, wantNext)
 				okCont := cont == u.bdd.Not(u.ToBool(u.Eq(d, u.Str(""))))
-				// lookup byHostname[d] in every iteration
+				// lookup byHostname[d] in every iteration (before any early exit)
 				okLookup := false
 				for b := range l.Blocks {
 					for _, in2 := range b.Instrs {
-						if lk, isLk := in2.(*ssa.Lookup); isLk && s.Env[lk.Index] == d {
-							if s.RC[b] == u.bdd.And(s.RC[l.Header], cont) {
+						if lk, isLk := in2.(*ssa.Lookup); isLk && act.Env[lk.Index] == d {
+							if act.RC[b] == body {
 								okLookup = true
 							}
 						}
 					}
 				}
-				early := false
-				for _, ex := range l.Exits {
-					if ex[0] != l.Header {
-						early = true
+				// an early exit may only skip the cut, never a lookup or an emission: everything in
+				// the iteration that has an effect must precede it, i.e. be reachable with the exit
+				// condition still undecided; approximated by: the exit condition is the "no dot" test
+				if early != False {
+					noDot := u.ToBool(u.Lt(u.LibCall("strings.Index", types.Typ[types.Int], d, u.Str(".")), u.Int(0)))
+					if early != noDot {
+						lookupsBefore = false
+					}
+					for _, ex := range l.Exits {
+						if ex[0] == l.Header {
+							continue
+						}
+						// blocks of the iteration that come after the exit test must not emit
+						for b := range l.Blocks {
+							if b != ex[0] && ex[0].Dominates(b) {
+								for _, in2 := range b.Instrs {
+									switch in2.(type) {
+									case *ssa.Lookup, *ssa.MapUpdate, *ssa.Store:
+										lookupsBefore = false
+									case *ssa.Call:
+										lookupsBefore = false
+									}
+								}
+							}
+						}
 					}
 				}
-				if !okNext || !okCont || !okLookup || early {
-					okProbe = fmt.Sprintf("the probe loop does not visit the hostname and every parent domain (next = tail after the first dot: %v; runs until empty: %v; table looked up in every iteration: %v; no early exit: %v)", okNext, okCont, okLookup, !early)
+				if !okNext || !okCont || !okLookup || !lookupsBefore {
+					okProbe = fmt.Sprintf("the probe loop does not visit the hostname and every parent domain (next = tail after the first dot: %v; runs until empty: %v; table looked up in every iteration: %v; leaves early only when no dot is left: %v)", okNext, okCont, okLookup, lookupsBefore)
 				}
 			}
 		}
@@ -350,7 +415,7 @@ func runC15(c *Ctx) {
 			pr := u.ToBool(ex.Args[1])
 			pats := u.AtomsOf(pr)
 			switch {
-			case m == nil || k == nil || k.Op != "field" || k.Aux != "Content" || k.Args[0] != rule:
+			case m == nil || k == nil || !((k.Op == "field" && k.Aux == "Content" && k.Args[0] == rule) || (k == rule && isStringT(rule.Typ))):
 				bad = "exceptions are not looked up under the rule's content: " + clip(u.Show(ex.Args[0]), 80)
 			case len(pats) != 1 || pr != u.Atom(pats[0]) || pats[0].Op != "call" || pats[0].Aux != calleeName(crm) || len(pats[0].Args) < 2 || pats[0].Args[0].Op != "bvar" || pats[0].Args[1] != host:
 				bad = "the scan does not test Match(exception, hostname) for each exception: " + clip(u.ShowBool(pr), 100)
